@@ -115,6 +115,13 @@ def unpatch(saved):
         setattr(mod, k, v)
 
 
+def container(case, oids):
+    """get_many takes any Iterable[str]"""
+    k = case.get("container", "list")
+    items = list(oids)
+    return items if k == "list" else tuple(items) if k == "tuple" else iter(items) if k == "iter" else (x for x in items)
+
+
 def render_end(kind, val):
     if kind == "ret":
         if isinstance(val, tuple) and len(val) == 2 and val[0] == "v":
@@ -162,7 +169,7 @@ def _run_case(g, case):
         if case["mode"] == "s":
             if api[0] in ("get", "getmany"):
                 try:
-                    v = sess.get(api[1]) if api[0] == "get" else sess.get_many(list(api[1]))
+                    v = sess.get(api[1]) if api[0] == "get" else sess.get_many(container(case, api[1]))
                     end = ("ret", v)
                 except BadScript:
                     end = ("bad", None)
@@ -194,7 +201,7 @@ def _run_case(g, case):
                         fake.timed_out()
                     return ("exc", apilib.exc_class(e))
             if api[0] in ("get", "getmany"):
-                end = loop.run_until_complete(one((lambda: sess.get(api[1])) if api[0] == "get" else (lambda: sess.get_many(list(api[1])))))
+                end = loop.run_until_complete(one((lambda: sess.get(api[1])) if api[0] == "get" else (lambda: sess.get_many(container(case, api[1])))))
             else:
                 it = sess.getnext(api[1]) if api[0] == "getnext" else sess.fetch(api[1]) if api[0] == "fetch" else \
                     (sess.getbulk(api[1]) if api[2] is None else sess.getbulk(api[1], api[2]))
